@@ -180,7 +180,8 @@ def run(facts, R):
         fsym = Sym(fb)
         drains = [(i, t) for i, t in fb.calls() if t["callee"]["name"] == "drain" and "HashMap" in t["callee"]["path"]]
         R.check(len(drains) == 1, "loop-exit-fails-all", fb.path, "drains the whole pending map", "fail_all_pending has %d drain() calls" % len(drains), fb.span)
-        adapters = [t["callee"]["name"] for i, t in fb.calls() if t["callee"].get("trait") == "std::iter::Iterator" and t["callee"]["name"] not in ("collect", "next")]
+        adapters = [t["callee"]["name"] for i, t in fb.calls() if t["callee"].get("trait") == "std::iter::Iterator"
+                    and t["callee"]["name"] not in ("collect", "next", "map", "enumerate", "rev", "inspect", "by_ref", "for_each")]     # one-to-one adapters lose nobody
         R.check(not adapters, "loop-exit-fails-all", fb.path, "no waiter is skipped", "the drained waiters pass through %s before being failed" % adapters, fb.span,
                 "drain().collect() then a plain for loop")
         sends = [(i, t) for i, t in fb.calls() if t["callee"]["name"] == "send" and ("Sender" in t["callee"]["path"])]
@@ -343,7 +344,14 @@ def run(facts, R):
             R.floor("pending-removed-on-abandon", n, 2, "await points after registration in " + b.path)
             # wait only after successful write
             wr = [(i, t) for i, t in b.calls() if t["callee"]["name"] == "write_request"]
-            polls_recv = [(i, t) for i, t in b.calls() if t["callee"]["name"] == "poll" and "oneshot::channel().1" in render(s.op(t["args"][0]))]
+            recv_fields = {f_["name"] for p_, a_ in facts.adts.items() if p_.startswith(module + "::") and a_.get("kind") == "struct" and a_.get("variants")
+                           for f_ in a_["variants"][0]["fields"] if "oneshot::Receiver<" in (f_.get("ty") or "")}
+
+            def _recv_text(txt):
+                # the response receiver: the second half of the oneshot channel, or a Receiver-typed field of a private struct
+                # (`PendingCall { receiver, guard }` returned by register)
+                return "oneshot::channel().1" in txt or any(("." + f_) in txt for f_ in recv_fields)
+            polls_recv = [(i, t) for i, t in b.calls() if t["callee"]["name"] == "poll" and _recv_text(render(s.op(t["args"][0])))]
             R.floor("write-failure-returns", len(polls_recv), 1, "receiver polls in " + b.path)
             for i, t in polls_recv:
                 fs = facts_at(b, s, facts, i)
@@ -356,16 +364,16 @@ def run(facts, R):
             for i, t in dis:
                 fs = facts_at(b, s, facts, i)
                 def from_receiver(e):
-                    if "oneshot::channel().1" in render(e):
+                    if _recv_text(render(e)):
                         return True
                     for x in walk(e):
                         if x[0] == "local":
                             ds = [d for d in b.defs_of(x[1]) if d[0] == "assign"]
-                            if ds and all("oneshot::channel().1" in render(s.rvalue(d[3])) for d in ds):
+                            if ds and all(_recv_text(render(s.rvalue(d[3]))) for d in ds):
                                 return True
                             # through temporaries assigned on several paths (rewritten combinators): every reaching combination
                             from analysis.sym import split_rows
-                            if ds and all(all("oneshot::channel().1" in render(v) for _, v in (split_rows(s, d[1], d[2], d[3]) or [({}, ("unknown", "?"))])) for d in ds):
+                            if ds and all(all(_recv_text(render(v)) for _, v in (split_rows(s, d[1], d[2], d[3]) or [({}, ("unknown", "?"))])) for d in ds):
                                 return True
                     return False
                 from analysis.guards import fact_alternatives
@@ -388,6 +396,12 @@ def run(facts, R):
             for f in fs:
                 if f["expr"][0] == "field" and f["expr"][2] in gflds and isinstance(f["val"], bool):
                     flag, vrm = f["expr"][2], f["val"]
+                elif f["expr"][0] == "field" and f["expr"][2] in gflds and isinstance(f["val"], str) and getattr(dp, "changed", False):
+                    # the flag as a private two-variant enum (`state: GuardState::{Armed, Disarmed}`)
+                    fty = [x_.get("ty") for x_ in facts.adts[gadt]["variants"][0]["fields"] if x_["name"] == f["expr"][2]]
+                    ea = facts.adts.get(fty[0]) if fty else None
+                    if ea is not None and ea.get("kind") == "enum" and len(ea.get("variants") or []) == 2 and f["val"] in [v_["name"] for v_ in ea["variants"]]:
+                        flag, vrm = f["expr"][2], f["val"]
             okd = flag is not None
             # one Option<u64> in place of (id, disarmed): Drop removes the id while the slot is Some, disarm() empties it
             opt = None
@@ -414,16 +428,34 @@ def run(facts, R):
                     "Drop removes %s under %s" % (render(key), texts(fs)), t.get("span"), "pending.remove(self.request_id) on the `%s == %s` edge" % (flag, vrm))
             if flag is None:
                 continue
+            # ... and whenever the guard is still armed: the armed/disarmed flag is the *only* thing that may keep Drop from removing
+            # the entry (any further condition - "only if our sender is closed", "only if present" - leaves the entry of a call
+            # that was abandoned before that condition became true)
+            off_blocks = [(x, 0) for x in sorted(dp.live_blocks())
+                          if any(f["expr"][0] == "field" and f["expr"][2] == flag and (f["val"] is (not vrm) if isinstance(vrm, bool) else (isinstance(f["val"], str) and f["val"] != vrm))
+                                 for f in facts_at(dp, ds, facts, x))]
+            wdp = must_cross(dp, [(0, 0)], return_points(dp), [term_pt(dp, i)], after_start=False, stop=off_blocks)
+            R.check(wdp is None, "pending-removed-on-abandon", dp.path, "an armed guard always removes its entry",
+                    "Drop of an armed PendingRequestGuard can return without pending.remove(self.request_id): a call abandoned on that path leaves its entry "
+                    "(and a later request under the same id is refused or mis-delivered)", t.get("span"), "remove crossed on every path with %s == %s" % (flag, vrm), path=wdp)
             # the flag starts in the removing state and only disarm() flips it
             from analysis.guards import struct_constructions
             for cb, ci, cj, cst in struct_constructions(facts, gadt):
                 init = dict(zip(cst["rv"]["fields"], cst["rv"]["ops"])).get(flag)
                 iv = const_val(Sym(cb).op(init)) if init is not None else None
+                if not isinstance(vrm, bool):
+                    ive = Sym(cb).op(init) if init is not None else None
+                    R.check(ive is not None and ive[0] == "agg" and ive[2] == vrm, "pending-removed-on-abandon", cb.path, "guard starts armed",
+                            "a PendingRequestGuard is built with %s = %s: its Drop would not remove the entry" % (flag, render(ive) if ive else None), cst.get("span"), "%s = %s" % (flag, vrm))
+                    continue
                 R.check(iv is not None and bool(iv) == vrm, "pending-removed-on-abandon", cb.path, "guard starts armed",
                         "a PendingRequestGuard is built with %s = %s: its Drop would not remove the entry" % (flag, iv), cst.get("span"), "%s = %s" % (flag, vrm))
             for w in field_writes(facts, gadt, flag):
                 okw = w["body"].path == gadt + "::disarm"
-                if okw and w["kind"] == "store":
+                if okw and w["kind"] == "store" and not isinstance(vrm, bool):
+                    wve = Sym(w["body"]).rvalue(w["rv"])
+                    okw = wve[0] == "agg" and isinstance(wve[2], str) and wve[2] != vrm
+                elif okw and w["kind"] == "store":
                     wv = const_val(Sym(w["body"]).rvalue(w["rv"]))
                     okw = wv is not None and bool(wv) == (not vrm)
                 R.check(okw, "pending-removed-on-abandon", w["body"].path, "flag flipped only by disarm()",
